@@ -9,6 +9,8 @@ CONSTANTS
   QCap = 5
   StopFix = FALSE
   EmitMax = 4
+  Pipes = {FALSE}
+  PCap = 1
 SPECIFICATION Spec
 INVARIANTS Safe Strict0 TokensFit Locks Counter TermStop TermDelivered
 CHECK_DEADLOCK FALSE
